@@ -1,7 +1,7 @@
 from checkdef import part
 SPEC = {
     "level": "exploration",
-    "parts": [part("c02_values", "plain", ["c02_values.cpp"])],
+    "parts": [part("c02_values", "plain", ["c02_values.cpp"]), part("c02_special", "plain", ["c02_special.cpp"])],
     "rule": "Cartesian product of component type/variant (28 documented component types, 50+ variants) x atom-group option "
             "(plain, dummyAtom, centerToReference with full/single refPositions, rotateToReference, both, fittingGroup, "
             "centerToOrigin, single-keyword overrides of the rmsd/eigenvector default fit) x combination (single, coefficient, "
@@ -13,7 +13,11 @@ SPEC = {
             "A case is distinct by (base-case id, "
             "transformation name); it is non-trivial when the configuration parsed, the value was computed by the real library and "
             "compared with the independent reference (rejected duplicate listings and documented-singular geometries are counted "
-            "separately and are not non-trivial)",
+            "separately and are not non-trivial). Second part (boundary geometries): 16 component/geometry pairs at the edge of "
+            "a definition's domain (exactly collinear or opposite sites of an angle, an atom on the polar axis, a pair exactly at "
+            "the cutoff for every coordination-type component and exponent choice, coordinates equal to the reference for the "
+            "orientation-type components and rmsd) x {value alone, with a harmonic restraint}: the value must be the limit of the "
+            "documented formula (never NaN) and the restraint energy finite",
     "assumptions": [
         "finite alphabet of reals: 3 generic 12-atom geometries, 3 mass/charge tables, 2 orthorhombic cells, fixed reference-position tables; nothing is claimed outside it",
         "conventions the manual leaves open are taken as: orientation = least-squares rotation from reference to current coordinates; dipole measured from the "
